@@ -22,10 +22,12 @@ CONSTANTS K,          \* number of slots of the pool
           Flav,       \* slot -> "vector" | "small" | "fixed"
           NInl,       \* slot -> inline capacity N (0 for "vector")
           MaxSz,      \* slot -> numeric_limits<size_type>::max()
-          TypeId      \* slot -> identifier of the C++ type (two slots with equal TypeId have the same type)
+          TypeId,     \* slot -> identifier of the C++ type (two slots with equal TypeId have the same type)
+          AllocId     \* slot -> identifier of the allocator TYPE (0 for FixedCapacityVector)
 
 Slots == 1..K
 DefVal == 0            \* value of a value-initialised element
+BigCap == 300          \* argument of the "reserveBig" label
 
 Limit(c) == IF Flav[c] = "fixed" THEN NInl[c] ELSE MaxSz[c]
 LimitExc(c) == IF Flav[c] = "fixed" THEN "out_of_range" ELSE "overflow_error"
@@ -175,7 +177,7 @@ Step(st, lb) ==
     [] lb.op = "resize"       -> Growing(st, c, ResizeTo(s, lb.n, DefVal), NoRet)
     [] lb.op = "resizeVal"    -> Growing(st, c, ResizeTo(s, lb.n, a), NoRet)
     [] lb.op = "clear"        -> R(Upd(st, c, [x EXCEPT !.vals = <<>>]), NoRet)
-    [] lb.op = "reserve"      ->
+    [] lb.op \in {"reserve", "reserveBig"} ->
          IF Flav[c] = "fixed"
          THEN IF lb.n > NInl[c] THEN R(st, ExcR("out_of_range")) ELSE R(st, NoRet)
          ELSE R(Upd(st, c, [Grown(c, x, lb.n, TRUE) EXCEPT !.pri = x.pri /\ lb.n <= NInl[c]]), NoRet)
@@ -194,21 +196,25 @@ Step(st, lb) ==
     [] lb.op = "swap2"        ->
          LET y == st[d]
              bothDyn == Flav[c] # "fixed" /\ Flav[d] # "fixed"
-             \* buffers are exchanged when both are dynamic, neither uses inline storage, and each capacity is
-             \* representable in the other's size_type
-             canSwapBuf == bothDyn /\ ~x.inl /\ ~y.inl /\ y.cap <= MaxSz[c] /\ x.cap <= MaxSz[d]
+             \* buffers are exchanged when both are dynamic with the same allocator type, neither uses inline
+             \* storage, and each capacity is representable in the other's size_type
+             CanSwapBuf(u, w) == bothDyn /\ AllocId[c] = AllocId[d] /\ ~u.inl /\ ~w.inl /\ w.cap <= MaxSz[c] /\ u.cap <= MaxSz[d]
              p == x.pri /\ y.pri
+             Exchange(u, w) == R([st EXCEPT ![c] = [u EXCEPT !.vals = y.vals, !.cap = w.cap, !.pri = p],
+                                            ![d] = [w EXCEPT !.vals = s, !.cap = u.cap, !.pri = p]], NoRet)
+             \* otherwise each operand first gets the capacity for the other's elements (which may throw) ...
+             x1 == Grown(c, x, Len(y.vals), FALSE)
+             y1 == Grown(d, y, sz, FALSE)
          IN IF c = d THEN R(st, NoRet)
+            ELSE IF CanSwapBuf(x, y) THEN Exchange(x, y)
             ELSE IF Len(y.vals) > Limit(c) THEN R(st, ExcR(LimitExc(c)))
             ELSE IF sz > Limit(d) THEN
                  \* the first operand may already have grown when the second one refuses
-                 R(Upd(st, c, [Grown(c, x, Len(y.vals), FALSE) EXCEPT !.pri = x.pri /\ Len(y.vals) <= NInl[c]]),
-                   ExcR(LimitExc(d)))
-            ELSE IF canSwapBuf
-            THEN R([st EXCEPT ![c] = [x EXCEPT !.vals = y.vals, !.cap = y.cap, !.pri = p],
-                              ![d] = [y EXCEPT !.vals = s, !.cap = x.cap, !.pri = p]], NoRet)
-            ELSE R([st EXCEPT ![c] = [SetVals(c, x, y.vals, FALSE) EXCEPT !.pri = p /\ Len(y.vals) <= NInl[c]],
-                              ![d] = [SetVals(d, y, s, FALSE) EXCEPT !.pri = p /\ sz <= NInl[d]]], NoRet)
+                 R(Upd(st, c, [x1 EXCEPT !.pri = x.pri /\ Len(y.vals) <= NInl[c]]), ExcR(LimitExc(d)))
+            \* ... and the buffers are exchanged after all if that growth made both heap backed
+            ELSE IF CanSwapBuf(x1, y1) THEN Exchange(x1, y1)
+            ELSE R([st EXCEPT ![c] = [x1 EXCEPT !.vals = y.vals, !.pri = p /\ Len(y.vals) <= NInl[c]],
+                              ![d] = [y1 EXCEPT !.vals = s, !.pri = p /\ sz <= NInl[d]]], NoRet)
     [] lb.op = "appendN"      -> Growing(st, c, s \o Rep(lb.n, DefVal), NoRet)
     [] lb.op = "appendNVal"   -> Growing(st, c, s \o Rep(lb.n, a), NoRet)
     [] lb.op = "appendRange"  ->
@@ -244,16 +250,17 @@ CtorOps1 == {"ctorDefault", "ctorCount", "ctorCountVal", "ctorRange", "ctorIlist
 BinSame == {"assignCopy", "assignMove", "swap", "eq", "ne", "lt", "le", "gt", "ge"}
 AliasOps == {"emplaceF", "emplaceBackF", "pushBack", "insert1", "insertN", "emplace", "emplaceBack", "resizeVal", "assignN", "appendNVal"}
 AllOps == MutOps1 \cup ObsOps1 \cup CtorOps1 \cup BinSame \cup {"ctorCopy", "ctorMove", "ctorFromVector", "destroy", "swap2"}
+AllOpsBig == AllOps \cup {"reserveBig"}
 
 \* Vals: value domain;  MaxLen: bound on the size;  MaxCnt: bound on counts;  Its: iterator kinds;
-\* RLens: lengths of range arguments.
+\* RLens: lengths of range arguments;  Alias: offer value arguments that refer to own elements (C10).
 \* Labels of operation o on slot c that are legal calls in state st (one small set per operation, so that a random
 \* driver can pick an operation first and never has to build the set of all labels).
-OpLabels(st, c, o, Vals, MaxLen, MaxCnt, Its, RLens) ==
+OpLabels(st, c, o, Vals, MaxLen, MaxCnt, Its, RLens, Alias) ==
   LET Ranges == UNION {[1..m -> Vals] : m \in RLens}
       Fits(need) == need <= MaxLen \/ (need > Limit(c) /\ need <= Limit(c) + MaxCnt)
       sz == Len(st[c].vals)
-      Srcs == {<<v, 0>> : v \in Vals} \cup (IF o \in AliasOps THEN {<<0, j>> : j \in 1..sz} ELSE {})
+      Srcs == {<<v, 0>> : v \in Vals} \cup (IF Alias /\ o \in AliasOps THEN {<<0, j>> : j \in 1..sz} ELSE {})
       Same == {e \in Slots : st[e].ex /\ SameType(c, e)}
   IN
   IF ~st[c].ex
@@ -266,7 +273,8 @@ OpLabels(st, c, o, Vals, MaxLen, MaxCnt, Its, RLens) ==
       [] o \in {"ctorCopy", "ctorMove"} -> {Lbl(o, c, d, 0, 0, 0, 0, "", <<>>) : d \in Same \ {c}}
       [] o = "ctorFromVector" ->
            {Lbl(o, c, d, 0, 0, 0, 0, "", <<>>) :
-               d \in {e \in Slots : e # c /\ st[e].ex /\ Flav[c] = "small" /\ Flav[e] = "vector" /\ MaxSz[c] = MaxSz[e]}}
+               d \in {e \in Slots : e # c /\ st[e].ex /\ Flav[c] = "small" /\ Flav[e] = "vector" /\ MaxSz[c] = MaxSz[e]
+                                    /\ AllocId[c] = AllocId[e]}}
       [] OTHER -> {}
   ELSE
     CASE o = "assignIlist"  -> {Lbl(o, c, 0, 0, 0, 0, 0, "", vs) : vs \in Ranges}
@@ -292,6 +300,8 @@ OpLabels(st, c, o, Vals, MaxLen, MaxCnt, Its, RLens) ==
       [] o = "resizeVal"    -> {Lbl(o, c, 0, 0, n, a[1], a[2], "", <<>>) : n \in {m \in 0..sz + MaxCnt : Fits(m)}, a \in Srcs}
       [] o \in {"clear", "shrinkToFit", "iterate", "relocate", "destroy"} -> {Lbl(o, c, 0, 0, 0, 0, 0, "", <<>>)}
       [] o = "reserve"      -> {Lbl(o, c, 0, 0, n, 0, 0, "", <<>>) : n \in {m \in 0..MaxLen + 1 : m <= MaxLen \/ Flav[c] = "fixed"}}
+      \* a capacity beyond an 8-bit size_type (swap2 between vectors of different size_type)
+      [] o = "reserveBig"   -> IF Flav[c] # "fixed" /\ MaxSz[c] >= BigCap THEN {Lbl(o, c, 0, 0, BigCap, 0, 0, "", <<>>)} ELSE {}
       [] o = "appendN"      -> {Lbl(o, c, 0, 0, n, 0, 0, "", <<>>) : n \in {m \in 0..MaxCnt : Fits(sz + m)}}
       [] o = "appendNVal"   -> {Lbl(o, c, 0, 0, n, a[1], a[2], "", <<>>) : n \in {m \in 0..MaxCnt : Fits(sz + m)}, a \in Srcs}
       [] o = "appendRange"  -> {Lbl(o, c, 0, 0, 0, 0, 0, it, vs) : it \in Its, vs \in {r \in Ranges : Fits(sz + Len(r))}}
@@ -304,8 +314,8 @@ OpLabels(st, c, o, Vals, MaxLen, MaxCnt, Its, RLens) ==
       [] o = "swap2"        -> {Lbl(o, c, d, 0, 0, 0, 0, "", <<>>) : d \in {e \in Slots : st[e].ex /\ e # c}}
       [] OTHER -> {}
 
-LabelsOf(st, Ops, Vals, MaxLen, MaxCnt, Its, RLens) ==
-  UNION {OpLabels(st, c, o, Vals, MaxLen, MaxCnt, Its, RLens) : c \in Slots, o \in Ops}
+LabelsOf(st, Ops, Vals, MaxLen, MaxCnt, Its, RLens, Alias) ==
+  UNION {OpLabels(st, c, o, Vals, MaxLen, MaxCnt, Its, RLens, Alias) : c \in Slots, o \in Ops}
 
 -----------------------------------------------------------------------------
 (* Invariants of the design, checked by TLC on every reachable state of a model *)
@@ -331,5 +341,5 @@ PristineImpliesInline(st) ==
 CapExempt == {"shrinkToFit", "ctorMove", "assignMove", "swap", "swap2", "ctorFromVector", "destroy"}
 CapMonotoneStep(st, lb, st2) ==
   \A c \in Slots : (st[c].ex /\ st2[c].ex /\ lb.op \notin CapExempt) => st2[c].cap >= st[c].cap
-ReserveStep(st, lb, st2) == (lb.op = "reserve" /\ Flav[lb.c] # "fixed") => st2[lb.c].cap >= lb.n
+ReserveStep(st, lb, st2) == (lb.op \in {"reserve", "reserveBig"} /\ Flav[lb.c] # "fixed") => st2[lb.c].cap >= lb.n
 =============================================================================
